@@ -61,6 +61,10 @@ def cases(tier, seed):
                    'rmax': 'none', 'grid': 20 if not T else 40, 'r': rng.randint(5, 12)})
     from .. import hist
     cs += hist.cases(PROP, tier, seed)
+    # directed: deep geometric decay (singular values 10^(-1.25 j) down to 1e-12 of the norm), explored from eps = 1e-13 upwards: tails that matter only at tiny eps
+    for i in range(8 if not T else 80):
+        cs.append({'gen': 'breakpoints', 'kind': 'gauge_deep', 'N': [rng.choice((9, 10, 11))] * 3, 'M': None if i % 3 else 'ones', 'dtype': ['f64', 'c128'][i % 2], 'rmax': 'none',
+                   'grid': 20 if not T else 40, 'lo_exp': -13})
     return cs
 
 
@@ -140,9 +144,13 @@ def build(case, ctx, g):
         t = ctx.call('add', lambda p, q: p + delta * q, a, b)
         return ctx.call('sub', lambda p, q: p - q, t, a)
     # gauge*: superdiagonal tensor with prescribed spectrum, written as a TT by the harness, pushed through a gauge
+    if M == 'ones':
+        M = [1] * len(N)
     modes = [m * n for m, n in zip(M, N)] if M else list(N)
     r = max(1, min([m for m in modes if m > 1] or [1]))      # spectrum lives on the non-singleton modes; singleton modes just pass the bond through
-    if kind in ('gauge_int',):
+    if kind == 'gauge_deep':
+        s = [10.0 ** (-1.25 * j) for j in range(r)]
+    elif kind in ('gauge_int',):
         s = sorted([float(rr.randint(1, 6)) for _ in range(r)], reverse=True)
     elif kind == 'gauge_flat':
         s = [rr.uniform(1, 3)] + [rr.uniform(0.05, 0.3)] * (r - 1)
@@ -158,7 +166,7 @@ def build(case, ctx, g):
         for j in range(r):
             c[0 if k == 0 else j, :, 0 if k == d - 1 else j] += Q[:, j] * (s[j] if k == 0 else 1.0)
         cores.append(c.to(dt))
-    cores = _gauge(cores, g, dt, cond=1e3 if kind != 'gauge_int' else 4.0)
+    cores = _gauge(cores, g, dt, cond={'gauge_int': 4.0, 'gauge_deep': 10.0}.get(kind, 1e3))
     if M:
         cores = [c.reshape(c.shape[0], m, n, c.shape[-1]) for c, m, n in zip(cores, M, N)]
     return torchtt.TT(cores)
@@ -302,7 +310,8 @@ def run_random(case, ctx, g):
 
 def run_breakpoints(case, ctx, g):
     x, dx, srep, nrm, exact = prep(case, ctx, g)
-    grid = [10 ** (-9 + (9 - 0.02) * j / (case['grid'] - 1)) for j in range(case['grid'])]
+    lo = case.get('lo_exp', -9)
+    grid = [10 ** (lo + (-lo - 0.02) * j / (case['grid'] - 1)) for j in range(case['grid'])]
     ranks = [observe(ctx, case, x, dx, srep, nrm, exact, e, None, 'grid') for e in grid]
     for j in range(len(grid) - 1):
         if ranks[j] is None or ranks[j + 1] is None or ranks[j] == ranks[j + 1]:
